@@ -65,7 +65,10 @@ def cursor(ctx: Ctx, rep: Report) -> None:
         rd = ctx.rd(f)
         rep.seen(f.qualname)
         lps = [lp for lp in _loops_over_ops(f) if any(
-            isinstance(x, ast.AugAssign) and norm(x.target) == 'param_index'
+            (isinstance(x, ast.AugAssign) and norm(
+                x.target) == 'param_index') or (
+                isinstance(x, ast.Subscript) and norm(x.value) == 'params'
+                and isinstance(x.slice, ast.Slice))
             for x in ast.walk(lp))]
         if len(lps) != 1:
             raise AnalysisError(f'Circuit.{name}: cursor loop not found')
